@@ -319,4 +319,11 @@ inductive CleanupReleaseRule where
   | unknown
 deriving DecidableEq, Repr, Inhabited
 
+/-- C02: what a history-capacity option of inmem does to the OTHER capacity when the two would cross -/
+inductive CapAdjust where
+  | raiseMax     -- the maximum is raised to the initial capacity
+  | lowerInit    -- the initial capacity is lowered to the maximum
+  | unknown
+deriving DecidableEq, Repr, Inhabited
+
 end Cosi.Gen
